@@ -126,29 +126,121 @@ func (u *Unit) defineSpec(name string, con *Contract, fn *ssa.Function) *specDef
 	return sd
 }
 
-// SpecDefs renders the spec functions used by this unit.
+// SpecDefs renders the spec functions used by this unit: non-recursive ones as
+// define-fun (so that quantifiers in their bodies are ordinary macros),
+// recursive groups as define-funs-rec, in dependency order.
 func (u *Unit) SpecDefs() string {
 	if len(u.specOrder) == 0 {
 		return ""
 	}
-	var sb strings.Builder
-	var decls, bodies []string
+	bySym := map[string]*specDef{}
+	for _, n := range u.specOrder {
+		bySym[u.specs[n].symbol()] = u.specs[n]
+	}
+	deps := map[*specDef][]*specDef{}
 	for _, n := range u.specOrder {
 		sd := u.specs[n]
-		var ps []string
-		var ss []string
+		if sd.body == nil {
+			continue
+		}
+		seen := map[int]bool{}
+		dset := map[*specDef]bool{}
+		var visit func(t *Term)
+		visit = func(t *Term) {
+			if seen[t.id] {
+				return
+			}
+			seen[t.id] = true
+			if d, ok := bySym[t.op]; ok && len(t.args) > 0 {
+				dset[d] = true
+			}
+			for _, a := range t.args {
+				visit(a)
+			}
+		}
+		visit(sd.body)
+		for _, m := range u.specOrder {
+			if dset[u.specs[m]] {
+				deps[sd] = append(deps[sd], u.specs[m])
+			}
+		}
+	}
+	// Tarjan SCC
+	index := map[*specDef]int{}
+	low := map[*specDef]int{}
+	onStack := map[*specDef]bool{}
+	var stack []*specDef
+	var sccs [][]*specDef
+	idx := 0
+	var strong func(v *specDef)
+	strong = func(v *specDef) {
+		idx++
+		index[v], low[v] = idx, idx
+		stack = append(stack, v)
+		onStack[v] = true
+		for _, w := range deps[v] {
+			if index[w] == 0 {
+				strong(w)
+				if low[w] < low[v] {
+					low[v] = low[w]
+				}
+			} else if onStack[w] && index[w] < low[v] {
+				low[v] = index[w]
+			}
+		}
+		if low[v] == index[v] {
+			var comp []*specDef
+			for {
+				w := stack[len(stack)-1]
+				stack = stack[:len(stack)-1]
+				onStack[w] = false
+				comp = append(comp, w)
+				if w == v {
+					break
+				}
+			}
+			sccs = append(sccs, comp) // dependencies are completed first
+		}
+	}
+	for _, n := range u.specOrder {
+		if index[u.specs[n]] == 0 {
+			strong(u.specs[n])
+		}
+	}
+	var sb strings.Builder
+	sig := func(sd *specDef) (string, string) {
+		var ps, ss []string
 		for _, f := range sd.formals {
 			ps = append(ps, fmt.Sprintf("(%s %s)", symbol(f.op), f.sort))
 			ss = append(ss, f.sort)
 		}
-		if sd.opaque || sd.body == nil {
-			fmt.Fprintf(&sb, "(declare-fun %s (%s) %s)\n", symbol(sd.symbol()), strings.Join(ss, " "), sd.ret)
-			continue
-		}
-		decls = append(decls, fmt.Sprintf("(%s (%s) %s)", symbol(sd.symbol()), strings.Join(ps, " "), sd.ret))
-		bodies = append(bodies, letForm(sd.body))
+		return strings.Join(ps, " "), strings.Join(ss, " ")
 	}
-	if len(decls) > 0 {
+	for _, comp := range sccs {
+		if len(comp) == 1 {
+			sd := comp[0]
+			ps, ss := sig(sd)
+			if sd.opaque || sd.body == nil {
+				fmt.Fprintf(&sb, "(declare-fun %s (%s) %s)\n", symbol(sd.symbol()), ss, sd.ret)
+				continue
+			}
+			selfRec := false
+			for _, d := range deps[sd] {
+				if d == sd {
+					selfRec = true
+				}
+			}
+			if !selfRec {
+				fmt.Fprintf(&sb, "(define-fun %s (%s) %s %s)\n", symbol(sd.symbol()), ps, sd.ret, letForm(sd.body))
+				continue
+			}
+		}
+		var decls, bodies []string
+		for _, sd := range comp {
+			ps, _ := sig(sd)
+			decls = append(decls, fmt.Sprintf("(%s (%s) %s)", symbol(sd.symbol()), ps, sd.ret))
+			bodies = append(bodies, letForm(sd.body))
+		}
 		sb.WriteString("(define-funs-rec (\n  ")
 		sb.WriteString(strings.Join(decls, "\n  "))
 		sb.WriteString("\n) (\n  ")
